@@ -19,7 +19,23 @@ namespace Basis
 def bisectL (b : Basis K) (v : K) : ℕ := bisectLeft b.kn v b.knots.size
 def bisectR (b : Basis K) (v : K) : ℕ := bisectRight b.kn v b.knots.size
 
-/-- `BSplineBasis.__init__` validation (knots given explicitly). -/
+/-- running maximum from a start value (tail of `np.maximum.accumulate`) -/
+def cummaxAux : K → List K → List K
+  | _, [] => []
+  | m, x :: xs => max m x :: cummaxAux (max m x) xs
+
+/-- `np.maximum.accumulate` on a list. -/
+def cummaxL : List K → List K
+  | [] => []
+  | x :: xs => x :: cummaxAux x xs
+
+/-- `np.maximum.accumulate(knots)`: every entry is replaced by the maximum of the entries up to it — the identity on
+    a non-decreasing array (`Lemmas/C10Cummax.lean`), and the result is always non-decreasing. -/
+def cummax (a : Array K) : Array K := (cummaxL a.toList).toArray
+
+/-- `BSplineBasis.__init__` validation (knots given explicitly).  Decreases within the tolerance pass the
+    non-decreasing test; the stored vector is the running maximum (`self.knots = np.maximum.accumulate(self.knots)`),
+    so every constructed basis is exactly non-decreasing. -/
 def mk? (order : ℕ) (knots : Array K) (periodic : Int) (tol : K) : PyM (Basis K) :=
   let periodic := max periodic (-1)
   let p := order
@@ -38,7 +54,7 @@ def mk? (order : ℕ) (knots : Array K) (periodic : Int) (tol : K) : PyM (Basis 
         decide (|(kn (i+1) - kn i) - (kn (-(p:Int) - k + i) - kn (-(p:Int) - k - 1 + i))| > tol))
     if badPer then .error .value
     else if (List.range (n - 1)).any (fun i => decide (knots.getD (i+1) 0 - knots.getD i 0 < -tol)) then .error .value
-    else .ok { order := order, knots := knots, periodic := periodic }
+    else .ok { order := order, knots := cummax knots, periodic := periodic }
 
 /-- `greville()` — all knot averages. (`p = 1` divides by zero in Python: ZeroDivisionError.) -/
 def greville (b : Basis K) : PyM (Array K) :=
@@ -242,7 +258,8 @@ def roll (b : Basis K) (newStart : ℕ) : PyM (Basis K) :=
   let left := b.knots.extract newStart (n - p - k - 1)
   let lenLeft := (n - p - k - 1) - newStart
   let right := (b.knots.extract 0 (n - lenLeft)).map (fun x => x - t1)
-  .ok { b with knots := left ++ right }
+  -- `np.maximum.accumulate(self.knots, out=self.knots)`: the shifted copy may start one rounding error low
+  .ok { b with knots := cummax (left ++ right) }
 
 /-- `make_periodic(continuity)` on a basis.  Python ints: `n_reps = deg - continuity - 1` may be negative
     (`[x] * n_reps` is then empty) and `n_copy = deg - n_reps = continuity + 1` whatever its sign; for order 1
